@@ -276,7 +276,8 @@ def template_main():
             small, r2 = scenario, res
         d2 = util.digest_of(r2.get("events", []))
         rs = util.run_seed(pid, base, i)
-        path = os.path.join(VERIF_DIR, "replays", f"{pid}-{rs:016x}.json")
+        path = os.path.join(os.environ.get("VERIF_REPLAY_DIR")
+                            or os.path.join(VERIF_DIR, "replays"), f"{pid}-{rs:016x}.json")
         os.makedirs(os.path.dirname(path), exist_ok=True)
         with open(path, "w") as f:
             json.dump({
